@@ -1,1 +1,15 @@
 import Cutadapt.Properties.C19
+#print axioms Cutadapt.C19.format_independent_of_proxy
+#print axioms Cutadapt.C19.format_by_name
+#print axioms Cutadapt.C19.fasta_forced_on_stdout
+#print axioms Cutadapt.C19.format_fallback
+#print axioms Cutadapt.C19.isSuffixOf_append_self
+#print axioms Cutadapt.C19.suffix_clash
+#print axioms Cutadapt.C19.find_first
+#print axioms Cutadapt.C19.strip_append
+#print axioms Cutadapt.C19.format_independent_of_compression_suffix
+#print axioms Cutadapt.C19.fasta_names
+#print axioms Cutadapt.C19.fastq_names
+#print axioms Cutadapt.C19.deinterleave_interleave
+#print axioms Cutadapt.C19.interleave_unzip
+#print axioms Cutadapt.C19.interleave_length
